@@ -32,6 +32,8 @@ type Check struct {
 	// Replay re-executes one recorded case (the "case" member of a replay file) without any explorer.
 	// It must call r.Violation again if the case still fails.
 	Replay func(r *Run, c json.RawMessage)
+	// Prebuild, if set, compiles helper binaries once (used by MANIFEST.setup_cmd to warm the Go build cache).
+	Prebuild func()
 }
 
 var registry = map[string]*Check{}
@@ -388,6 +390,7 @@ func Main() {
 	fs := flag.NewFlagSet("vcheck", flag.ExitOnError)
 	tier := fs.String("tier", envOr("VERIF_TIER", "quick"), "quick|thorough")
 	replay := fs.String("replay", "", "replay file")
+	prebuild := fs.Bool("prebuild", false, "only compile the helper binaries of this check (warms the build cache)")
 	budget := fs.Int("budget", 0, "wall-clock budget in seconds (0 = tier default)")
 	workers := fs.Int("workers", runtime.NumCPU(), "worker goroutines")
 	fs.Parse(os.Args[2:])
@@ -395,6 +398,12 @@ func Main() {
 	if !ok {
 		fmt.Fprintln(os.Stderr, "unknown check", id)
 		os.Exit(2)
+	}
+	if *prebuild {
+		if c.Prebuild != nil {
+			c.Prebuild()
+		}
+		os.Exit(0)
 	}
 	sd, _ := strconv.ParseInt(os.Getenv("VERIF_SEED"), 10, 64)
 	if *tier != "thorough" {
